@@ -36,7 +36,13 @@ class ProgGen:
     def xt_instr(self):
         rng = self.rng
         k = rng.randint(0, 1)
-        c = rng.choice(["st", "st", "xw", "xw", "xw", "xp", "xf", "ps"])
+        c = rng.choice(["st", "st", "xw", "xw", "xw", "xp", "xf", "ps", "Wm", "gs", "gs", "gp", "gp", "gp"])
+        if c == "Wm":
+            return "Wm"
+        if c == "gs":
+            return "gs%d.%d" % (rng.randint(0, 8), rng.randint(1, 9))
+        if c == "gp":
+            return "gp%d" % rng.randint(0, 8)
         if c == "xw":
             return "xw%d.%d" % (k, rng.choice(WAITS))
         if c == "ps":
@@ -72,6 +78,8 @@ class ProgGen:
     def ext_instr(self):
         rng = self.rng
         k = rng.randint(1, 3)
+        if rng.random() < 0.12:
+            return rng.choice(["Wm", "tm", "om", "ow", "em", "tf", "wf", "ef", "eo"])
         c = rng.choice(["o", "o", "u", "u", "g", "x", "t", "n", "n", "a", "l", "d", "f", "z", "q"] +
                        (["wp"] if "no-waitparent" not in FLAGS else []) + (["sv", "wl"] if "no-waitpeer" not in FLAGS else []))
         if c in ("o", "u", "g", "x", "z"):
@@ -106,6 +114,10 @@ def history(rng, nthreads, nframes, depth, size, ext=False, xt=False):
         for s in starts:
             if s == f:
                 ops.append(("S", pg.block(depth, size, ext, xt)))
+                if (ext or xt) and rng.random() < 0.2:
+                    ops.append(("M", rng.randrange(0, sum(1 for o in ops if o[0] == "S"))))
+                if ext and rng.random() < 0.1:
+                    ops.append((rng.choice(["MO", "MF"]),))
                 if ext and "no-waitpeer" not in FLAGS and rng.random() < 0.3:
                     ops.append(("E", sum(1 for o in ops if o[0] == "S") - 1))     # a second instance of the same script
         if f < nframes:
@@ -218,6 +230,35 @@ def xthread_histories():
     return res
 
 
+def failstart_histories(ext):
+    """thread starts that create a new script instance and then fail (label missing in the same file; ext: started by
+    an object, in another file, file missing), from the script and from the host, each followed by frames, a recompile
+    of the script and a last refused start: the instance count must never exceed the thread count"""
+    toks = ["Wm"] if not ext else ["Wm", "tm", "om", "ow", "em", "tf", "wf", "ef"]
+    res = []
+    for t in toks:
+        for shape in ("%s", "%s w1", "w1 %s", "T( %s )", "W( %s )", "W( %s w1 )", "%s %s", "T( w1 %s )"):
+            prog = with_markers((shape.replace("%s", t)).split())
+            hosts = [("M", 0)] if not ext else [("M", 0), ("MO",), ("MF",)]
+            for h in hosts:
+                res.append([("S", prog), h, ("T", 1), ("X",), h, ("C", 0), ("T", 2), ("X",), h])
+    return res
+
+
+def gvar_histories():
+    """scripts store into variables of level / game / parm; after the usual injections (Reset, recompile, ...) a NEW script
+    reads the old names and fresh ones, interned in a different order: after a Reset every one must read as not set
+    (the engine runs scripts as if new), after the end of the threads / a recompile the values are still there"""
+    res = []
+    for sets in (["gs0.5"], ["gs0.5", "gs4.3"], ["gs1.2", "gs8.7", "gs3.4"], ["gs0.5", "w1", "gs0.6"], ["T( gs2.9 )", "gs7.1"]):
+        for reads in (["gp1", "gp0"], ["gp2", "gp1", "gp0", "gp5", "gp4", "gp8"], ["gp6", "gp3", "gp0", "gs1.4", "gp1"]):
+            toks = " ".join(sets).split()
+            ops = [("S", with_markers(toks)), ("T", 1), ("X",), ("S", with_markers(reads)), ("T", 1), ("X",),
+                   ("S", with_markers(list(reversed(reads))))]
+            res.append(ops)
+    return res
+
+
 class C13(vlib.HistoryProp):
     cid = "C13"
     variant = "asan"
@@ -238,7 +279,9 @@ class C13(vlib.HistoryProp):
         return [
             "injected integral millisecond clock (hook H1), constant during an Execute; time scale 1",
             "Coq model and theorems: threads are abstract programs of println / wait / thread / waitthread / host_reset / host_recompile / "
-            "level.r<k> = local / pause / level.r<k> wait|waitframe|pause (timing commands applied to another thread through a weak reference) "
+            "level.r<k> = local / pause / level.r<k> wait|waitframe|pause (timing commands applied to another thread through a weak reference) / "
+            "level.|game.|parm.va|vb|vc = x and printing them (global variables: they outlive their threads, not a Reset) / "
+            "waitthread <missing label> (a new instance whose start fails) and the refused host start ExecuteThread(script, <missing label>) "
             "(each wait-for and notify table holds at most one entry; Stop of a thread that still waits for somebody does not occur); "
             "the interpreter's execution of other statements is C03's subject, waittill/notify C07's",
             "SAMPLED ONLY (real engine under ASan, direct checks of the observed counts, no Coq model): waittill / notify on script-created "
@@ -299,6 +342,20 @@ class C13(vlib.HistoryProp):
             vs = variants(ops, rng, limit=(10 if quick else None), recompile=True, destroy=True)
             for tag, lines in vs:
                 add(lines, "xthread-" + tag)
+        # (1d) global variables across Reset / recompile / end of threads
+        for ops in gvar_histories():
+            for tag, lines in variants(ops, rng, limit=(16 if quick else None), recompile=True, destroy=False):
+                # the sentinel part reads the variables again, in yet another order
+                lines = lines + ["S p60 gp8 gp4 gp0 gp1 gp5 gp2", "T 1", "X"]
+                add(lines, "gvar-" + tag)
+        # (1c) thread starts that create a new instance and fail
+        for ext in (False, True):
+            for ops in failstart_histories(ext):
+                vs = variants(ops, rng, limit=(8 if quick else None), recompile=True, destroy=True)
+                for tag, lines in vs:
+                    if ext and lines[-1] != "D":
+                        lines = lines + ["Q", "D"]
+                    add(lines, ("xfail-" if ext else "fail-") + tag, ext=ext)
         plan = [(3, 4, 2, 5, 200, 16)] if quick else [(3, 4, 2, 5, 1500, 40), (4, 8, 3, 7, 400, 40)]
         for nth, nfr, depth, size, cnt, lim in plan:
             for _ in range(cnt):
@@ -362,6 +419,8 @@ class C13(vlib.HistoryProp):
                 direct.append("reports idle while something is alive: " + body)
             if thr and not ncls:
                 direct.append("threads without an instance: " + body)
+            if ncls > thr:
+                direct.append("more instances than threads (an instance without a thread): " + body)
             if vm != thr:
                 direct.append("VM count differs from thread count between host ops: " + body)
             if tmr and not thr:
